@@ -22,6 +22,14 @@ def groupedSums (arr : List Int) (sc : List Nat) : List (Int × Nat) :=
     let sel := (List.range sc.length).filter fun i => sc.getD i 0 == c
     ((sel.map fun i => arr.getD i 0).sum, sel.length)
 
+/-- `_index_of`'s set-theoretic definition: for every element of `arr` its position in `lookup` (first
+occurrence; `lookup.length` for an element that is absent).  Independent of the magnitude of the ids —
+the table model `Np.indexTable` is a list as long as the largest id, so the correspondence compares the real
+code with this definition where that list would have millions of cells (`indexOf_spec` proves that the
+two agree on duplicate-free lookups holding every element of `arr`). -/
+def positionsIn (arr : List Int) (lookup : List Nat) : List Int :=
+  arr.map fun a => Int.ofNat (lookup.idxOf a.toNat)
+
 /-- ids fit the dtype (so that the dtype holds them at all) -/
 def FitsDtype (w : Nat) (signed : Bool) (sc : List Nat) : Prop :=
   ∀ c ∈ sc, (c : Int) < (if signed then 2 ^ (w - 1) else 2 ^ w)
